@@ -4,7 +4,7 @@
    (vm_compute) for the finite range in the statement; C16_partial = what is proved of C16_full. *)
 From Coq Require Import List ZArith QArith Bool Arith Lia.
 From GV Require Import Lib.Tree Lib.Graph16 Lib.PolyRefl16 Model.QCount Model.CliqueEq
-                       Proofs.QCountP Proofs.CliqueEqP.
+                       Proofs.QCountP Proofs.CliqueEqP Proofs.CycleGen Proofs.QQGen Proofs.CliqueGen Proofs.CrossGen Proofs.CayleyRed Proofs.Cayley.
 Import ListNotations.
 
 (* ------------------------------------------------------------------------------------------------
@@ -21,7 +21,8 @@ Import ListNotations.
                              of u_v over the vertices v <> r in r's component of (vs, S).
    ------------------------------------------------------------------------------------------------ *)
 
-(* ---- the full statement of the property (kept visible; proved only in the bounded form below) *)
+(* ---- the full statement of the property.  Originally proved only in the bounded form C16_partial below;
+   the growth round proves it in full: C16_holds : C16_full (near the end of this file). *)
 Definition C16_full : Prop :=
   (* clique equation, arbitrary clique size, heterogeneous neighbour values *)
   (forall tau, (2 <= tau)%nat -> forall (phi : Q) (Hs : list Q), length Hs = (tau - 1)%nat ->
@@ -118,6 +119,177 @@ Theorem C16_cycle_identity_upto_10 : forall n, (3 <= n <= 10)%nat ->
 Proof. exact cycle_identity_upto_10. Qed.
 Print Assumptions C16_cycle_identity_upto_10.
 
+(* ---- GENERAL (growth): the cycle identity for EVERY n >= 3, all rational u and phi — no bound, no reflection.
+   Proof (Proofs/CycleGen.v): edge subsets = boolean masks; the root's component is the leading run of kept
+   edges plus the trailing run (paths hanging off the root on both sides, closed into a cycle); the weighted
+   sums over masks obey first-edge recursions solved in closed form; free edges sum to weight 1. *)
+Theorem C16_cycle_identity_general : forall n, (3 <= n)%nat ->
+  forall (u phi : Q), cycle_val n u phi == exact_val (seq 0 n) (cycle_edges n) 0 phi (fun _ => u).
+Proof. exact cycle_identity_general. Qed.
+Print Assumptions C16_cycle_identity_general.
+
+(* ---- GENERAL (growth): the brute-force implementation QQ (which counts the REMOVED-edge subsets of size
+   n(n-1)/2 - k that keep K_n connected) equals the number of connected spanning subgraphs of K_n with k KEPT
+   edges, for every n and every k in range: the complement map T |-> K_n \ T is an involution on edge subsets
+   exchanging the sizes (Proofs/QQGen.v; also |E(K_n)| = n(n-1)/2 for every n) *)
+Theorem C16_QQ_eq_brute_general : forall n k, (0 <= k <= tri (Z.of_nat n))%Z ->
+  QQv n k = brute n (Z.to_nat k).
+Proof. exact QQ_eq_brute_general. Qed.
+Print Assumptions C16_QQ_eq_brute_general.
+
+Theorem C16_QQ_counts_connected_graphs : forall n k, (0 <= k <= tri (Z.of_nat n))%Z ->
+  Card (fun S => subl S (all_edges n) /\ length S = Z.to_nat k /\ Connected (seq 0 n) S) (QQv n k).
+Proof. exact QQ_counts_connected_graphs. Qed.
+Print Assumptions C16_QQ_counts_connected_graphs.
+
+Theorem C16_complete_graph_size : forall n, Z.of_nat (length (all_edges n)) = tri (Z.of_nat n).
+Proof. exact all_edges_length. Qed.
+Print Assumptions C16_complete_graph_size.
+
+(* ---- GENERAL (growth): the ingredients of the clique equation, for every tau.
+   omega(tau, kappa) IS the number of interface edges of a (kappa+1)-subset of a tau-clique: *)
+Theorem C16_omega_closed_form : forall tau kappa, (kappa < tau)%nat ->
+  omega tau kappa = Z.of_nat (S kappa * (tau - S kappa)).
+Proof. exact omega_closed. Qed.
+Print Assumptions C16_omega_closed_form.
+
+(* [ebd C e]: exactly one endpoint of e lies in C' = 0 :: C; C any subset of the other tau - 1 vertices *)
+Theorem C16_interface_edge_count : forall tau, (1 <= tau)%nat -> forall C, subl C (seq 1 (tau - 1)) ->
+  length (filter (ebd C) (all_edges tau)) = (S (length C) * (tau - S (length C)))%nat.
+Proof. exact boundary_count. Qed.
+Print Assumptions C16_interface_edge_count.
+
+(* the root's component of (K_tau, T) is C' exactly when T keeps no interface edge and T restricted to C'
+   connects C' ([comp tau T] = the vertices <> 0 that the specification multiplies over) *)
+Theorem C16_component_characterisation : forall tau, (1 <= tau)%nat -> forall C, subl C (seq 1 (tau - 1)) ->
+  forall T, edges_in (seq 0 tau) T ->
+  leqb C (comp tau T) = nilb (filter (ebd C) T) && connectedb (Cr C) (filter (ein C) T).
+Proof. exact comp_indicator. Qed.
+Print Assumptions C16_component_characterisation.
+
+(* connectivity, hence the count of connected graphs, is invariant under an injective relabelling *)
+Theorem C16_count_relabelling_invariant : forall (f : nat -> nat) K,
+  (forall i j, (i < K)%nat -> (j < K)%nat -> f i = f j -> i = j) ->
+  forall e, Z.of_nat (length (filter (fun T => connectedb (map f (seq 0 K)) T)
+                                     (combs e (map (emap f) (all_edges K))))) = brute K e.
+Proof. exact brute_relabel. Qed.
+Print Assumptions C16_count_relabelling_invariant.
+
+(* REGROUPING, every tau, NO hypothesis: the exact expectation on K_tau is
+   sum_kappa [ sum_e brute(kappa+1, e) phi^e (1-phi)^(C(kappa+1,2) - e) ] (1-phi)^((kappa+1)(tau-kappa-1))
+             x (sum over the kappa-subsets of the neighbours of the product of their H values)
+   ([W phi n e] = phi^e (1-phi)^(n-e); the free edges outside the component have total weight 1) *)
+Theorem C16_exact_clique_regrouped : forall tau phi Hs, (1 <= tau)%nat -> length Hs = (tau - 1)%nat ->
+  exact_val (seq 0 tau) (all_edges tau) 0 phi (fun v => nth (v - 1) Hs 0) ==
+  qsum (map (fun kappa => Rk phi tau kappa * qsum (map qprod (combs kappa Hs))) (seq 0 tau)).
+Proof. exact exact_clique_regrouped. Qed.
+Print Assumptions C16_exact_clique_regrouped.
+
+(* REDUCTION: the only unproved ingredient of the unbounded clique identity is
+   "Q n k counts the connected labelled graphs with n vertices and k edges" *)
+Theorem C16_clique_identity_reduces_to_Q_count :
+  (forall n k, (1 <= n)%nat -> (0 <= k <= tri (Z.of_nat n))%Z -> Qv n k = brute n (Z.to_nat k)) ->
+  forall tau, (2 <= tau)%nat ->
+  forall (phi : Q) (Hs : list Q), length Hs = (tau - 1)%nat ->
+    clique_val tau phi Hs == exact_val (seq 0 tau) (all_edges tau) 0 phi (fun v => nth (v - 1) Hs 0).
+Proof. exact clique_identity_reduces_to_Q_count. Qed.
+Print Assumptions C16_clique_identity_reduces_to_Q_count.
+
+(* the same with a bound: Q = brute for n <= N gives the clique identity for tau <= N *)
+Theorem C16_clique_identity_from_Q_count : forall N,
+  (forall n k, (1 <= n <= N)%nat -> (0 <= k <= tri (Z.of_nat n))%Z -> Qv n k = brute n (Z.to_nat k)) ->
+  forall tau, (2 <= tau <= N)%nat ->
+  forall (phi : Q) (Hs : list Q), length Hs = (tau - 1)%nat ->
+    clique_val tau phi Hs == exact_val (seq 0 tau) (all_edges tau) 0 phi (fun v => nth (v - 1) Hs 0).
+Proof. exact clique_identity_from_Q_count. Qed.
+Print Assumptions C16_clique_identity_from_Q_count.
+
+(* an independent second proof of C16_clique_identity_upto_6 (regrouping + Q = brute for n <= 6; no
+   polynomial normal forms involved) *)
+Theorem C16_clique_identity_upto_6_via_count : forall tau, (2 <= tau <= 6)%nat ->
+  forall (phi : Q) (Hs : list Q), length Hs = (tau - 1)%nat ->
+    clique_val tau phi Hs == exact_val (seq 0 tau) (all_edges tau) 0 phi (fun v => nth (v - 1) Hs 0).
+Proof. exact clique_identity_upto_6_via_count. Qed.
+Print Assumptions C16_clique_identity_upto_6_via_count.
+
+(* ---- GENERAL (growth): the exponential-formula recurrence [cross] — the checker's reference for n >= 8,
+   until now "a consistency check, not a count" — IS the number of connected labelled graphs, every n, every k.
+   Proof (Proofs/CrossGen.v): coefficient semantics of the list-polynomial operations; the counting identity
+   below; strong induction on n. *)
+Theorem C16_cross_counts_connected_graphs : forall n k, (1 <= n)%nat -> (0 <= k)%Z ->
+  cross n k = brute n (Z.to_nat k).
+Proof. exact cross_eq_brute. Qed.
+Print Assumptions C16_cross_counts_connected_graphs.
+
+(* all k-edge graphs on n labelled vertices, classified by the vertex set of the root's component:
+   C(n(n-1)/2, k) = sum_kappa C(n-1, kappa) sum_i #connected(kappa+1, i) C((n-kappa-1)(n-kappa-2)/2, k-i)
+   ([Cn] = Pascal's binomial = the code's factorial binomial by C16_binomial_is_pascal;
+    length (all_edges m) = m(m-1)/2 by C16_complete_graph_size) *)
+Theorem C16_counting_identity : forall n k, (1 <= n)%nat ->
+  Cn (length (all_edges n)) k =
+  zsum (map (fun kappa => Cn (n - 1) kappa *
+                          zsum (map (fun i => brute (S kappa) i * Cn (length (all_edges (n - S kappa))) (k - i))
+                                    (seq 0 (S k))))%Z
+            (seq 0 n)).
+Proof. exact count_identity_Z. Qed.
+Print Assumptions C16_counting_identity.
+
+(* the number of k-subsets of a list is Pascal's binomial (the vertex-subset counting of the clique equation) *)
+Theorem C16_combs_count : forall (l : list nat) k, Z.of_nat (length (combs k l)) = Cn (length l) k.
+Proof. exact (@combs_length nat). Qed.
+Print Assumptions C16_combs_count.
+
+(* ---- BOUNDED, now a COUNT: Q n k = number of connected labelled graphs for n <= 12 (Q = cross by reflection,
+   cross = brute in general; the brute-force enumeration itself is never run beyond n = 6) *)
+Theorem C16_Q_count_upto_12 : forall n k, (1 <= n <= 12)%nat -> (0 <= k <= tri (Z.of_nat n))%Z ->
+  Qv n k = brute n (Z.to_nat k).
+Proof. exact Q_count_upto_12. Qed.
+Print Assumptions C16_Q_count_upto_12.
+
+(* ---- BOUNDED: the clique identity for 2 <= tau <= 12, heterogeneous H (regrouping theorem + the count) *)
+Theorem C16_clique_identity_upto_12 : forall tau, (2 <= tau <= 12)%nat ->
+  forall (phi : Q) (Hs : list Q), length Hs = (tau - 1)%nat ->
+    clique_val tau phi Hs == exact_val (seq 0 tau) (all_edges tau) 0 phi (fun v => nth (v - 1) Hs 0).
+Proof. exact clique_identity_upto_12. Qed.
+Print Assumptions C16_clique_identity_upto_12.
+
+(* ---- GENERAL: the verified checker's verdict on Q / QQ values is about the TRUE count for every n *)
+Theorem C16_check_count_sound_all : forall bmax n k r, (1 <= n)%nat -> (0 <= k)%Z ->
+  check_count bmax n k r = true -> r = brute n (Z.to_nat k).
+Proof. exact check_count_sound_all. Qed.
+Print Assumptions C16_check_count_sound_all.
+
+Theorem C16_check_row_sound_all : forall bmax n rs, (1 <= n)%nat ->
+  check_row bmax n rs = true ->
+  forall k, (0 <= k <= tri (Z.of_nat n))%Z -> nth (Z.to_nat k) rs 0%Z = brute n (Z.to_nat k).
+Proof. exact check_row_sound_all. Qed.
+Print Assumptions C16_check_row_sound_all.
+
+(* ---- GENERAL (growth): a connected graph on n vertices has at least n - 1 edges (the out-of-range branch of Q) *)
+Theorem C16_connected_needs_n_minus_1_edges : forall vs es, NoDup vs -> edges_in vs es -> Connected vs es ->
+  (length vs <= S (length es))%nat.
+Proof. exact connected_edges_lb. Qed.
+Print Assumptions C16_connected_needs_n_minus_1_edges.
+
+Theorem C16_no_connected_graph_below_tree : forall n i, (S i < n)%nat -> brute n i = 0%Z.
+Proof. exact brute_below_tree. Qed.
+Print Assumptions C16_no_connected_graph_below_tree.
+
+(* ---- REDUCTION (growth): the recursion Q as written counts the connected labelled graphs for ALL n and k, GIVEN
+   Cayley's formula for the k = n-1 shortcut n^(n-2).  The general branch is the counting identity
+   (C16_counting_identity, trimmed summation range included), the out-of-range branch is the lower bound above.
+   Cayley's formula itself is NOT proved here; it holds for n <= 12 (C16_Cayley_upto_12). *)
+Theorem C16_Q_count_reduces_to_Cayley :
+  (forall n, (2 <= n)%nat -> brute n (n - 1) = (Z.of_nat n ^ (Z.of_nat n - 2))%Z) ->
+  forall n, (1 <= n)%nat -> forall k, (0 <= k <= tri (Z.of_nat n))%Z -> Qcode n k = brute n (Z.to_nat k).
+Proof. exact Q_count_from_Cayley. Qed.
+Print Assumptions C16_Q_count_reduces_to_Cayley.
+
+Theorem C16_Cayley_upto_12 : forall n, (2 <= n <= 12)%nat ->
+  brute n (n - 1) = (Z.of_nat n ^ (Z.of_nat n - 2))%Z.
+Proof. exact Cayley_upto_12. Qed.
+Print Assumptions C16_Cayley_upto_12.
+
 (* ---- GENERAL: the polynomial the model puts on the wire evaluates, for every valuation of the variables,
    to the code's arithmetic on rationals (so comparing polynomials compares the functions) *)
 Theorem C16_clique_model_semantics : forall l tau P HS,
@@ -208,6 +380,113 @@ Proof.
 Qed.
 Print Assumptions C16_partial.
 
+(* ---- growth: the same four clauses with the cycle clause and the QQ half of the count clause UNBOUNDED;
+   what is still bounded: the clique identity (tau <= 6) and Q = brute (n <= 6) *)
+Definition C16_bounded_v2 : Prop :=
+  (forall tau, (2 <= tau <= 6)%nat -> forall (phi : Q) (Hs : list Q), length Hs = (tau - 1)%nat ->
+     clique_val tau phi Hs == exact_val (seq 0 tau) (all_edges tau) 0 phi (fun v => nth (v - 1) Hs 0)) /\
+  (forall n, (3 <= n)%nat -> forall (u phi : Q),
+     cycle_val n u phi == exact_val (seq 0 n) (cycle_edges n) 0 phi (fun _ => u)) /\
+  (forall n k, (1 <= n <= 6)%nat -> (0 <= k <= tri (Z.of_nat n))%Z -> Qcode n k = brute n (Z.to_nat k)) /\
+  (forall n k, (1 <= n)%nat -> (0 <= k <= tri (Z.of_nat n))%Z -> QQv n k = brute n (Z.to_nat k)) /\
+  (forall nodes edges ak i k, (0 <= k)%Z ->
+     let vs := induced_vs nodes ak i in
+     let es := induced_es vs edges in
+     vs <> [] ->
+     exists c, ncg_model nodes edges ak i k = Val c /\
+               Card (fun T => subl T es /\ length T = Z.to_nat k /\ Connected vs (ediff es T)) c).
+
+Theorem C16_partial_v2 : C16_bounded_v2.
+Proof.
+  exact (conj clique_identity_upto_6 (conj cycle_identity_general
+          (conj (fun n k Hn Hk => proj1 (Q_code_count_upto_6 n k Hn Hk))
+             (conj (fun n k _ Hk => QQ_eq_brute_general n k Hk) ncg_spec)))).
+Qed.
+Print Assumptions C16_partial_v2.
+
+(* ---- growth, second step: clique tau <= 12, cycle unbounded, Q = count n <= 12, QQ unbounded, counter general *)
+Definition C16_bounded_v3 : Prop :=
+  (forall tau, (2 <= tau <= 12)%nat -> forall (phi : Q) (Hs : list Q), length Hs = (tau - 1)%nat ->
+     clique_val tau phi Hs == exact_val (seq 0 tau) (all_edges tau) 0 phi (fun v => nth (v - 1) Hs 0)) /\
+  (forall n, (3 <= n)%nat -> forall (u phi : Q),
+     cycle_val n u phi == exact_val (seq 0 n) (cycle_edges n) 0 phi (fun _ => u)) /\
+  (forall n k, (1 <= n <= 12)%nat -> (0 <= k <= tri (Z.of_nat n))%Z -> Qcode n k = brute n (Z.to_nat k)) /\
+  (forall n k, (1 <= n)%nat -> (0 <= k <= tri (Z.of_nat n))%Z -> QQv n k = brute n (Z.to_nat k)) /\
+  (forall nodes edges ak i k, (0 <= k)%Z ->
+     let vs := induced_vs nodes ak i in
+     let es := induced_es vs edges in
+     vs <> [] ->
+     exists c, ncg_model nodes edges ak i k = Val c /\
+               Card (fun T => subl T es /\ length T = Z.to_nat k /\ Connected vs (ediff es T)) c).
+
+Theorem C16_partial_v3 : C16_bounded_v3.
+Proof.
+  exact (conj clique_identity_upto_12 (conj cycle_identity_general (conj Qcode_count_upto_12
+            (conj (fun n k _ Hk => QQ_eq_brute_general n k Hk) ncg_spec)))).
+Qed.
+Print Assumptions C16_partial_v3.
+
+(* ---- growth: THE WHOLE PROPERTY reduces to Cayley's formula (number of labelled trees = n^(n-2)) *)
+Theorem C16_full_reduces_to_Cayley :
+  (forall n, (2 <= n)%nat -> brute n (n - 1) = (Z.of_nat n ^ (Z.of_nat n - 2))%Z) -> C16_full.
+Proof.
+  exact (fun HCay =>
+    conj (clique_identity_reduces_to_Q_count (Qv_count_from_Cayley HCay))
+      (conj cycle_identity_general
+        (conj (fun n k Hn Hk => conj (Q_count_from_Cayley HCay n Hn k Hk) (QQ_eq_brute_general n k Hk))
+           ncg_spec))).
+Qed.
+Print Assumptions C16_full_reduces_to_Cayley.
+
+(* ================================================================================================
+   GROWTH, final step: CAYLEY'S FORMULA and with it the WHOLE property, unbounded.
+   ================================================================================================ *)
+(* [NQ V R] = number of edge sets F of the complete graph on the vertex list V with |F| + |R| = |V| in which
+   every vertex reaches a root of R (rooted forests).  |V| NQ(V,R) = |R| |V|^(|V|-|R|)  (Proofs/Cayley.v:
+   removing a root turns its neighbours into roots; binomial theorem in subset form). *)
+Theorem C16_rooted_forest_count : forall n V R, length V = n -> NoDup V -> NoDup R -> incl R V ->
+  inject_Z (Z.of_nat (length V)) * NQ V R ==
+  inject_Z (Z.of_nat (length R)) * qpn (inject_Z (Z.of_nat (length V))) (length V - length R).
+Proof. exact forest_count. Qed.
+Print Assumptions C16_rooted_forest_count.
+
+(* the number of labelled trees on n >= 2 vertices is n^(n-2): the k = n-1 shortcut of Q is exact *)
+Theorem C16_Cayley_formula : forall n, (2 <= n)%nat -> brute n (n - 1) = (Z.of_nat n ^ (Z.of_nat n - 2))%Z.
+Proof. exact Cayley_formula. Qed.
+Print Assumptions C16_Cayley_formula.
+
+(* GENERAL: the recursion Q as written, and the memoised table the model runs, count the connected labelled
+   graphs with n vertices and k edges, for ALL n >= 1 and ALL 0 <= k <= n(n-1)/2 *)
+Theorem C16_Q_count_general : forall n k, (1 <= n)%nat -> (0 <= k <= tri (Z.of_nat n))%Z ->
+  Qcode n k = brute n (Z.to_nat k) /\ Qv n k = brute n (Z.to_nat k) /\ QQv n k = brute n (Z.to_nat k).
+Proof.
+  exact (fun n k Hn Hk => conj (Q_count_general n k Hn Hk)
+                            (conj (Qv_count_general n k Hn Hk) (QQ_eq_brute_general n k Hk))).
+Qed.
+Print Assumptions C16_Q_count_general.
+
+(* GENERAL: clique_equation = exact bond-percolation expectation on K_tau for EVERY tau >= 2, every rational
+   phi, every heterogeneous list of tau - 1 neighbour values *)
+Theorem C16_clique_identity_general : forall tau, (2 <= tau)%nat ->
+  forall (phi : Q) (Hs : list Q), length Hs = (tau - 1)%nat ->
+    clique_val tau phi Hs == exact_val (seq 0 tau) (all_edges tau) 0 phi (fun v => nth (v - 1) Hs 0).
+Proof. exact clique_identity_general. Qed.
+Print Assumptions C16_clique_identity_general.
+
+(* THE FULL STATEMENT of the property (kept visible at the top of this file as C16_full) *)
+Theorem C16_holds : C16_full.
+Proof.
+  exact (conj clique_identity_general (conj cycle_identity_general
+          (conj (fun n k Hn Hk => conj (Q_count_general n k Hn Hk) (QQ_eq_brute_general n k Hk)) ncg_spec))).
+Qed.
+Print Assumptions C16_holds.
+
+(* GENERAL: the model's Q and QQ values pass the verified checker for every n, k and every bmax *)
+Theorem C16_Q_model_meets_check_general : forall bmax n k, (1 <= n)%nat -> (0 <= k <= tri (Z.of_nat n))%Z ->
+  check_count bmax n k (Qv n k) = true /\ check_count bmax n k (QQv n k) = true.
+Proof. exact Q_model_meets_check_general. Qed.
+Print Assumptions C16_Q_model_meets_check_general.
+
 (* ---- non-vacuity: concrete non-trivial inputs meeting the hypotheses *)
 (* the triangle with a pendant vertex, ak = [1;2], i = 0, k = 1: three ways to delete one edge of the
    induced triangle and stay connected; hypotheses of C16_ncg_spec hold *)
@@ -240,3 +519,54 @@ Example C16_nonvacuous_clique :
   Qred (cycle_val 4 (1 # 3) (1 # 2)) = Qred (exact_val (seq 0 4) (cycle_edges 4) 0 (1 # 2) (fun _ => 1 # 3)) /\
   check_clique 3 (px 1) (hvars 3) 1 (padd (clique_expr 3 (px 1) (hvars 3)) (pmul (px 2) (px 1))) = false.
 Proof. vm_compute. repeat split; reflexivity. Qed.
+
+(* growth: beyond the old bounds — the 12-cycle (old bound 10); the identity is one of polynomials, so it is
+   instantiated at the integers u = 3, phi = 2 (cheap to evaluate over 2^12 edge subsets): both sides are
+   -2844328919; QQ(5,6) = brute(5,6) = 205 with the hypothesis 0 <= 6 <= 10 of C16_QQ_eq_brute_general *)
+Example C16_nonvacuous_growth :
+  (3 <= 12)%nat /\
+  Qred (cycle_val 12 (3 # 1) (2 # 1)) = (-2844328919 # 1) /\
+  Qred (exact_val (seq 0 12) (cycle_edges 12) 0 (2 # 1) (fun _ => 3 # 1)) = (-2844328919 # 1) /\
+  (0 <= 6 <= tri 5)%Z /\ QQv 5 6 = 205%Z /\ brute 5 6 = 205%Z.
+Proof.
+  split; [lia|]. split; [vm_compute; reflexivity|]. split; [vm_compute; reflexivity|].
+  split; [vm_compute; split; discriminate|]. split; vm_compute; reflexivity.
+Qed.
+
+(* growth, the regrouping ingredients on K_5 with C = {2, 4} (C' = {0, 2, 4}, kappa = 2): the hypotheses of
+   C16_interface_edge_count / C16_component_characterisation hold, 6 interface edges = omega 5 2, and for
+   T = {02, 24, 13} the root's component is exactly C (both sides of the characterisation are true), while
+   T + {01} is rejected; the hypothesis of C16_clique_identity_from_Q_count is met for N = 6
+   (that instance is C16_clique_identity_upto_6_via_count) *)
+Example C16_nonvacuous_regroup :
+  subl [2; 4]%nat (seq 1 (5 - 1)) /\
+  length (filter (ebd [2; 4]%nat) (all_edges 5)) = 6%nat /\ omega 5 2 = 6%Z /\
+  edges_in (seq 0 5) [(0, 2); (2, 4); (1, 3)]%nat /\
+  leqb [2; 4]%nat (comp 5 [(0, 2); (2, 4); (1, 3)]%nat) = true /\
+  nilb (filter (ebd [2; 4]%nat) [(0, 2); (2, 4); (1, 3)]%nat)
+    && connectedb (Cr [2; 4]%nat) (filter (ein [2; 4]%nat) [(0, 2); (2, 4); (1, 3)]%nat) = true /\
+  leqb [2; 4]%nat (comp 5 [(0, 1); (0, 2); (2, 4); (1, 3)]%nat) = false.
+Proof.
+  split; [repeat constructor|]. split; [vm_compute; reflexivity|]. split; [vm_compute; reflexivity|].
+  split; [|repeat split; vm_compute; reflexivity].
+  intros e He. cbn in He. destruct He as [<-|[<-|[<-|[]]]]; cbn; lia.
+Qed.
+
+(* growth: cross beyond the brute-force range — cross 9 12 = Q(9,12) (hypotheses 1 <= 9, 0 <= 12), and the
+   checker accepts exactly that value for n = 9 (where it consults cross) *)
+Example C16_nonvacuous_cross :
+  (1 <= 9)%nat /\ (0 <= 12)%Z /\ cross 9 12 = Qv 9 12 /\ (cross 9 12 > 0)%Z /\
+  check_count 6 9 12 (cross 9 12) = true /\ check_count 6 9 12 (cross 9 12 + 1) = false.
+Proof. split; [lia|]. split; [lia|]. vm_compute. repeat split; reflexivity. Qed.
+
+(* growth: Cayley's formula at n = 5 (hypothesis 2 <= 5): 125 = 5^3 labelled trees; the rooted-forest count on
+   V = [3;1;4;2] with roots [4;1] (hypotheses NoDup / incl hold): 4 * NQ = 2 * 4^2, i.e. NQ = 8 *)
+Example C16_nonvacuous_cayley :
+  (2 <= 5)%nat /\ brute 5 4 = 125%Z /\ (5 ^ (5 - 2) = 125)%Z /\
+  NoDup [3; 1; 4; 2]%nat /\ NoDup [4; 1]%nat /\ incl [4; 1]%nat [3; 1; 4; 2]%nat /\
+  Qred (NQ [3; 1; 4; 2]%nat [4; 1]%nat) = 8.
+Proof.
+  split; [lia|]. split; [vm_compute; reflexivity|]. split; [reflexivity|].
+  split; [repeat constructor; cbn; lia|]. split; [repeat constructor; cbn; lia|].
+  split; [intros v Hv; cbn in *; lia|]. vm_compute. reflexivity.
+Qed.
